@@ -277,6 +277,20 @@ def check(ctx):
         closes = any(isinstance(c, ast.Call) and norm(c.func) == "all_interfaces.update" and c.args and norm(c.args[0]) == "flattened.interfaces" for s_ in body for c in ast.walk(s_))
         ctx.check(closes, "C19.R15", f"{oo.qualname}:{test[:50]}", body[0], f"under `{test}` the interfaces of the flattened type are not propagated: `type Outer implements I2` without I1 when I2 implements I1 is rejected by validate_schema", oo, body[0], detail="all_interfaces.update(flattened.interfaces)")
 
+    # ---------------- R16: interfaces are collected among all the ancestors
+    ctx.rule("C19.R16", "get_interfaces filters the whole ancestry of the class (`cls.__mro__` without the class itself): an interface inherited through a plain class is implemented, and the object builder asks get_interfaces for the visited class", floor=2)
+    gi = model.func("apischema.graphql.interfaces.get_interfaces")
+    srcs = [n for n in ast.walk(gi.node) if isinstance(n, ast.Attribute) and norm(n.value) == gi.params[0] and n.attr in ("__mro__", "__bases__", "__orig_bases__")]
+    uses_mro = any(n.attr == "__mro__" for n in srcs) or any(isinstance(c, ast.Call) and norm(c.func).endswith(".mro") for c in ast.walk(gi.node))
+    direct = [n for n in srcs if n.attr != "__mro__"]
+    ctx.check(uses_mro and not direct, "C19.R16", f"{gi.qualname}:ancestry", None,
+              f"interfaces are looked for among `{norm(direct[0]) if direct else '?'}` only: with `@interface class Shape`, `class Shape2D(Shape)`, `class Circle(Shape2D)` the GraphQL type Circle implements nothing and a resolver typed Shape returning a Circle fails",
+              gi, direct[0] if direct else gi.node, detail="filter(is_interface, cls.__mro__[1:])")
+    filt = any(isinstance(c, ast.Call) and ((dotted(c.func) == "filter" and c.args and norm(c.args[0]) == "is_interface") or dotted(c.func) == "is_interface") for c in ast.walk(gi.node))
+    ctx.check(filt, "C19.R16", f"{gi.qualname}:filter", None, "get_interfaces no longer keeps the classes registered with @interface", gi, gi.node, detail="is_interface")
+    asked = [c for c in ast.walk(oo.node) if isinstance(c, ast.Call) and dotted(c.func) == "get_interfaces"]
+    ctx.check(len(asked) == 1 and asked[0].args and norm(asked[0].args[0]) == "cls", "C19.R16", f"{oo.qualname}:get_interfaces", None, "the object builder does not ask for the interfaces of the visited class", oo, asked[0] if asked else oo.node, detail="get_interfaces(cls)")
+
     # ---------------- R14: the error handler covers the point where the resolver's exception is raised
     ctx.rule("C19.R14", "the try block applying a resolver's error_handler covers the execution of the resolver, also when it is a coroutine function", floor=1)
     rr_ = model.func("apischema.graphql.resolvers.resolver_resolve")
@@ -359,6 +373,8 @@ def _assigns_optional(st) -> bool:
 
 
 def mutants(mb):
+    mb.add_text("interfaces-direct-bases", "apischema/graphql/interfaces.py", "cls.__mro__[1:]", "cls.__bases__", "C19.R16", "ancestry")
+    mb.add_text("neg-interfaces-comprehension", "apischema/graphql/interfaces.py", "    return list(filter(is_interface, cls.__mro__[1:]))\n", "    return [base for base in cls.__mro__ if base is not cls and is_interface(base)]\n", negative=True)
     G = "apischema/graphql/schema.py"
     R = "apischema/graphql/resolvers.py"
     mb.add_text("errors-raise-in-try", R,
